@@ -549,23 +549,30 @@ theorem objSearch_spec (t : T) (o : Opts) (hp : o.pend = false) (hf : o.rec_ = t
   intro c
   exact mem_reSearchChildren t o.rec_ hf p r c
 
-/-- **`regex_groups=True` — finding FC04f.**  Full statement (false of the code and of the model): for
-`empty_branches=False` the rows are those of the complete chains,
-`findObjectBranchesGroups t rs g false rev false = .ok (revIf' rev (((chains t rs).map (·.map some)).map (rowCells g)))`.
-What holds: for **either** value of `empty_branches` the result is one row of cells per maximal partial chain
-(`padded`), in chain order, reversed on request — the `None` filter runs after the conversion to cells and
-never fires.  Each row has one cell per expression; the cell of a missing line is `(None,)`, the cell of
-line `i` holds the capture groups of the expression on its text (`-` for a group that did not participate),
-or the line itself when the expression has no groups; every cell is a tuple (`Branch.__init__`). -/
-theorem branches_groups_partial (t : T) (rs : List Row) (h : 2 ≤ rs.length) (g : GroupTable) (emp rev : Bool) :
-    findObjectBranchesGroups t rs g emp rev false =
+/-- **`regex_groups=True`.**  For `empty_branches=False` the rows are those of the complete chains -- exactly the
+N-tuples of chains of direct parent-to-child lines matching expression `i` at depth `i` that the property speaks of --
+and for `empty_branches=True` one row per maximal partial chain (`padded`); in chain order, reversed on request.
+Each row has one cell per expression; the cell of a missing line is `(None,)`, the cell of line `i` holds the
+capture groups of the expression on its text (`-` for a group that did not participate), or the line itself when the
+expression has no groups; every cell is a tuple (`Branch.__init__`).
+(Before the repair `fix: find_object_branches(regex_groups=True) drops partial branches unless empty_branches=True`
+this was `branches_groups_partial`: for either value of `empty_branches` the padded rows came back, because the `None`
+filter ran after the conversion to cells and never fired -- finding FC04f.) -/
+theorem branches_groups (t : T) (rs : List Row) (h : 2 ≤ rs.length) (g : GroupTable) (rev : Bool) :
+    findObjectBranchesGroups t rs g false rev false =
+      .ok (if rev then (((chains t rs).map (·.map some)).map (rowCells g)).reverse
+           else ((chains t rs).map (·.map some)).map (rowCells g)) ∧
+    findObjectBranchesGroups t rs g true rev false =
       .ok (if rev then ((padded t rs).map (rowCells g)).reverse else (padded t rs).map (rowCells g)) ∧
     (∀ b : Branch, (rowCells g b).length = b.length ∧ ∀ c ∈ rowCells g b, c.isTuple = true) ∧
     (∀ idx, cellOf g idx none = ⟨true, [.none]⟩) ∧
     (∀ idx i, groupsAt g idx i = some [] → cellOf g idx (some i) = ⟨false, [.line i]⟩) ∧
     (∀ idx i x xs, groupsAt g idx i = some (x :: xs) →
       cellOf g idx (some i) = ⟨true, (x :: xs).map itemOf⟩) := by
-  refine ⟨?_, ?_, fun _ => rfl, ?_, ?_⟩
+  refine ⟨?_, ?_, ?_, fun _ => rfl, ?_, ?_⟩
+  · have hb := branches_eq_chains t rs h false
+    simp only [Bool.false_eq_true, if_false] at hb
+    simp [findObjectBranchesGroups, hb]
   · have hb := branches_padded_spec t rs h false
     simp only [Bool.false_eq_true, if_false] at hb
     simp [findObjectBranchesGroups, hb]
@@ -646,9 +653,14 @@ example : hasChildWithF exT 0 (strArg rowB) { pend := true } = .error .notImplem
 example : reSearchChildrenObjF exT 0 (strArg rowC) { rec_ := true } = .ok [2] ∧
     reSearchChildrenObjF exT 0 (strArg rowC) {} = .ok [] ∧ reSearchF exT 3 (patArg rowB) {} = .ok true := ⟨by rfl, by rfl, by rfl⟩
 
-example : findObjectBranchesGroups exT [rowA, rowB, rowC] [[some [], none, none, none, some [], none],
+def exG : GroupTable := [[some [], none, none, none, some [], none],
       [none, some [some "b".toList, none], none, some [some "b".toList, none], none, none],
-      [none, none, some [], none, none, none]] false false false =
+      [none, none, some [], none, none, none]]
+/-- `empty_branches=False`: only the complete chain `0, 1, 2` (before the repair of FC04f the three padded rows below
+came back here as well) -/
+example : findObjectBranchesGroups exT [rowA, rowB, rowC] exG false false false =
+    .ok [[⟨true, [.line 0]⟩, ⟨true, [.str "b".toList, .none]⟩, ⟨true, [.line 2]⟩]] := by rfl
+example : findObjectBranchesGroups exT [rowA, rowB, rowC] exG true false false =
     .ok [[⟨true, [.line 0]⟩, ⟨true, [.str "b".toList, .none]⟩, ⟨true, [.line 2]⟩],
          [⟨true, [.line 0]⟩, ⟨true, [.str "b".toList, .none]⟩, ⟨true, [.none]⟩],
          [⟨true, [.line 4]⟩, ⟨true, [.none]⟩, ⟨true, [.none]⟩]] := by rfl
